@@ -197,8 +197,8 @@ def conversion_flavour(chk, F, rule, cfg):
     """the multi-use conversion of a composite converts its parts with the multi-use conversion (never the single-use one)"""
     n = 0
     for fn in F.fns.values():
-        if fn.name != 'into_return' or not re.search(r'^output::(deep|shallow)::', fn.defp):
-            continue
+        if fn.name != 'into_return' or not re.search(r'^output::', fn.defp):
+            continue      # (includes a provided body of the trait method itself, if it ever gets one)
         for b in [fn] + F.closures_of(fn):
             for bb, t in b.calls(include_cleanup=True):
                 nm = symex.callee_name(t)
@@ -208,3 +208,10 @@ def conversion_flavour(chk, F, rule, cfg):
                     chk.ob(rule, 'multi-use conversion of a composite converts every part with the multi-use (cloning) conversion', ok, config=cfg, fn=b, site='part-conversion', what='%s uses %s for a part' % (fn.defp[:70], nm.rsplit('::', 1)[-1]),
                            found=nm, expected='output::IntoReturn::into_return')
     chk.floor(rule, 'part conversions inside multi-use composite conversions', n, 8, config=cfg)
+    # every multi-use impl brings its own conversion: none inherits a trait-provided body
+    multi = [im for im in F.impls if im.get('trait') == 'output::IntoReturn']
+    for im in multi:
+        own = [it for it in im.get('items', []) if it.get('name') == 'into_return']
+        chk.ob(rule, 'the multi-use conversion impl for %s defines into_return itself' % im['self_ty'][:50], len(own) == 1, config=cfg, site='impl-own:%s|%s' % (im['self_ty'][:60], im.get('trait_ref', '')[:80]),
+               what='IntoReturn impl for %s (%s) has no into_return of its own' % (im['self_ty'][:60], im.get('trait_ref', '')[:60]), found=[it.get('name') for it in im.get('items', [])])
+    chk.floor(rule, 'multi-use conversion impls', len(multi), 10, config=cfg)
